@@ -15,8 +15,19 @@ use jomini::text::TokenReader as TextReader;
 use jomini::{BinaryDeserializer, TextDeserializer};
 use serde::de::DeserializeSeed;
 
+/// the io::ErrorKind an injected fault carries: the library must treat every kind as a failure
+/// (`Interrupted`, `WouldBlock`, `UnexpectedEof`, `TimedOut` are the kinds generic code tends to special-case)
+const KINDS: [std::io::ErrorKind; 5] = [std::io::ErrorKind::Other, std::io::ErrorKind::Interrupted, std::io::ErrorKind::WouldBlock, std::io::ErrorKind::UnexpectedEof, std::io::ErrorKind::TimedOut];
+thread_local! { static KIND: std::cell::Cell<usize> = std::cell::Cell::new(0); }
+struct KindReader<'a>(SchedReader<'a>);
+impl<'a> std::io::Read for KindReader<'a> {
+    fn read(&mut self, b: &mut [u8]) -> std::io::Result<usize> {
+        self.0.read(b).map_err(|e| std::io::Error::new(KINDS[KIND.with(|k| k.get())], e.to_string()))
+    }
+}
+
 fn run_text(ty: &Ty, cap: usize, d: &[u8], steps: Vec<Step>) -> (Result<String, String>, usize, usize) {
-    let rd = SchedReader::new(d, steps);
+    let rd = KindReader(SchedReader::new(d, steps));
     let tr = TextReader::builder().buffer_len(cap).build(rd);
     let mut de = TextDeserializer::from_windows1252_reader(tr);
     let r = TySeed(ty).deserialize(&mut de).map_err(|e| e.to_string());
@@ -25,7 +36,7 @@ fn run_text(ty: &Ty, cap: usize, d: &[u8], steps: Vec<Step>) -> (Result<String, 
 
 fn run_bin(ty: &Ty, cap: usize, d: &[u8], steps: Vec<Step>) -> Result<String, String> {
     let res = super::c05::resolver();
-    let rd = SchedReader::new(d, steps);
+    let rd = KindReader(SchedReader::new(d, steps));
     let mut b = BinaryDeserializer::builder_flavor(super::c05::Flavor);
     b.on_failed_resolve(FailedResolveStrategy::Stringify);
     b.reader_config(BinReader::builder().buffer_len(cap));
@@ -68,20 +79,25 @@ pub fn exec(w: &[&str], obs: &mut Obs) -> Option<String> {
             let ncalls = count_calls(&d, step, cap, text, &ty).min(60);
             let mut faults = 0;
             for i in 0..ncalls {
-                for persistent in [false, true] {
+                for (persistent, kind) in [(false, 0usize), (true, 0), (false, 1 + i % 4), (true, 1 + (i + 1) % 4), (false, 1), (true, 1)] {
                     let mut steps: Vec<Step> = (0..i).map(|_| Step::Give(step)).collect();
                     steps.push(if persistent { Step::FailForever } else { Step::Fail });
                     steps.push(Step::Repeat(step));
+                    KIND.with(|k| k.set(kind));
                     let r = run(steps);
+                    KIND.with(|k| k.set(0));
                     faults += 1;
                     match (&r, &clean) {
                         (Ok(v), Ok(c)) if v == c => {
                             // allowed only if the fault was never needed (value complete before the failing call) --
                             // with a fault inside the fault-free run's call count this means the error was swallowed
-                            // unless the failing call was the trailing end-of-input probe
-                            if i + 1 < ncalls { obs.violation("fault-swallowed", &case, &format!("fault at read call {} (persistent={}) of {}: still Ok with the full value; the error was not reported", i, persistent, ncalls)); }
+                            // unless the failing call was the trailing end-of-input probe.  For the kinds generic
+                            // code may legitimately retry (anything but Other) a transient fault that ends in the
+                            // fault-free value is not held against the library: the property only forbids a
+                            // DIFFERENT result; a persistent fault that was needed must still end in an error.
+                            if i + 1 < ncalls && (kind == 0 || persistent) { obs.violation("fault-swallowed", &case, &format!("fault at read call {} (persistent={}, kind {:?}) of {}: still Ok with the full value; the error was not reported", i, persistent, KINDS[kind], ncalls)); }
                         }
-                        (Ok(v), _) => { obs.violation("fault-wrong-value", &case, &format!("fault at read call {} (persistent={}): Ok({}) but fault-free result is {:?}", i, persistent, v, clean)); }
+                        (Ok(v), _) => { obs.violation("fault-wrong-value", &case, &format!("fault at read call {} (persistent={}, kind {:?}): Ok({}) but fault-free result is {:?}", i, persistent, KINDS[kind], v, clean)); }
                         (Err(e), _) => {
                             let io = e.to_lowercase().contains("injected") || e.to_lowercase().contains("i/o") || e.to_lowercase().contains("io error") || e.to_lowercase().contains("failed to read");
                             if !io { obs.count("fault:error-not-io-text"); }
@@ -91,6 +107,64 @@ pub fn exec(w: &[&str], obs: &mut Obs) -> Option<String> {
             }
             obs.count(if text { "fde-text" } else { "fde-bin" });
             Some(format!("ok {} {}", match &clean { Ok(_) => "clean-ok".to_string(), Err(e) => err_class(e) }, faults))
+        }
+        [op @ ("x-ftok-text" | "x-ftok-bin"), cap, step, h] => {
+            // token readers under faults of every io::ErrorKind at every read call: the run ends in the
+            // reader's I/O error after a prefix of the fault-free tokens, or equals the fault-free run
+            let text = *op == "x-ftok-text";
+            let cap: usize = cap.parse().ok()?;
+            let step: usize = step.parse().ok()?;
+            let d = unhex(h)?;
+            let run = |steps: Vec<Step>| -> (Vec<String>, String, usize) {
+                let rd = KindReader(SchedReader::new(&d, steps));
+                let mut toks = vec![];
+                if text {
+                    let mut tr = TextReader::builder().buffer_len(cap).build(rd);
+                    loop {
+                        match tr.next() {
+                            Ok(Some(t)) => toks.push(format!("{:?}", t)),
+                            Ok(None) => return (toks, "end".into(), tr.position()),
+                            Err(e) => { let k = match e.kind() { jomini::text::ReaderErrorKind::Read(_) => "io".to_string(), o => format!("{:?}", o) }; return (toks, k, tr.position()); }
+                        }
+                        if toks.len() > 4096 { return (toks, "limit".into(), 0); }
+                    }
+                } else {
+                    let mut tr = BinReader::builder().buffer_len(cap).build(rd);
+                    loop {
+                        match tr.next() {
+                            Ok(Some(t)) => toks.push(format!("{:?}", t)),
+                            Ok(None) => return (toks, "end".into(), tr.position()),
+                            Err(e) => { let k = match e.kind() { jomini::binary::ReaderErrorKind::Read(_) => "io".to_string(), o => format!("{:?}", o) }; return (toks, k, tr.position()); }
+                        }
+                        if toks.len() > 4096 { return (toks, "limit".into(), 0); }
+                    }
+                }
+            };
+            let clean = run(vec![Step::Repeat(step)]);
+            let ncalls = (d.len() / step.max(1) + 2).min(80);
+            let mut faults = 0;
+            for i in 0..ncalls {
+                for (persistent, kind) in [(false, 1usize), (true, 1), (false, 2 + i % 3), (true, 2 + (i + 1) % 3)] {
+                    let mut steps: Vec<Step> = (0..i).map(|_| Step::Give(step)).collect();
+                    steps.push(if persistent { Step::FailForever } else { Step::Fail });
+                    steps.push(Step::Repeat(step));
+                    KIND.with(|k| k.set(kind));
+                    let r = run(steps);
+                    KIND.with(|k| k.set(0));
+                    faults += 1;
+                    let delivered_max = d.len();
+                    if r.2 > delivered_max { obs.violation("fault-position", &case, &format!("position {} beyond the {} bytes of input", r.2, delivered_max)); }
+                    if r.1 == "io" {
+                        if !(r.0.len() <= clean.0.len() && r.0.iter().zip(clean.0.iter()).all(|(a, b)| a == b)) {
+                            obs.violation("fault-wrong-tokens", &case, &format!("fault of kind {:?} at read call {} (persistent={}): tokens before the I/O error are not a prefix of the fault-free tokens", KINDS[kind], i, persistent));
+                        }
+                    } else if (r.0.clone(), r.1.clone()) != (clean.0.clone(), clean.1.clone()) {
+                        obs.violation("fault-wrong-result", &case, &format!("fault of kind {:?} at read call {} (persistent={}): run ended with {} after {} tokens, fault-free run ends with {} after {} tokens; the failure was not reported as an I/O error", KINDS[kind], i, persistent, r.1, r.0.len(), clean.1, clean.0.len()));
+                    }
+                }
+            }
+            obs.count(if text { "ftok-text" } else { "ftok-bin" });
+            Some(format!("ok {} {}", clean.1, faults))
         }
         _ => None,
     }
@@ -126,11 +200,13 @@ pub fn gen_de_fault(g: &mut Gen) {
         let ty = tuplify_doc(&mut g.rng, &ty, &doc);
         let b = docgen::render_binary(&mut g.rng, &BinCfg::default(), &doc);
         if b.len() <= 200 { g.emit(format!("x-fde-bin {} {} {} {}", show_ty(&ty), cap, step, hex(&b))); }
+        if b.len() <= 200 { g.emit(format!("x-ftok-bin {} {} {}", cap, step, hex(&b))); }
         let doc = docgen::gen_doc(&mut g.rng, &DocCfg { max_fields: 4, ..DocCfg::save_style() });
         let ty = doc_ty(&mut g.rng, &doc, true);
         let ty = tuplify_doc(&mut g.rng, &ty, &doc);
         let t = docgen::render_layout(&mut g.rng, &LayoutCfg { max_left_pad: 2, max_trailing: 2, ..LayoutCfg::reader_safe() }, &docgen::lexemes(&doc));
         if t.len() <= 200 { g.emit(format!("x-fde-text {} {} {} {}", show_ty(&ty), cap, step, hex(&t))); }
+        if t.len() <= 200 { g.emit(format!("x-ftok-text {} {} {}", cap, step, hex(&t))); }
     }
     // the ghost-object shape of the repaired defect (binary/de.rs next_key_seed)
     for step in [1usize, 2, 3] {
